@@ -1,3 +1,4 @@
+import CG.Proofs.WFRun
 import CG.Proofs.TopoOrders
 #print axioms CG.TopoThm.kahn_lag_sorted
 #print axioms CG.TopoThm.allTimeTopo_iff
@@ -7,3 +8,18 @@ import CG.Proofs.TopoOrders
 #print axioms CG.TopoThm.lagsSorted_iff
 #print axioms CG.TopoThm.isTopoOrder_iff
 #print axioms CG.TopoThm.linExt_path_forward
+#print axioms CG.ts_edges_forward
+#print axioms CG.run_no_edge_backwards
+#print axioms CG.C13.no_directed_edge_backwards
+#print axioms CG.C13.directed_edge_forward
+#print axioms CG.C13.history_no_edge_backwards
+#print axioms CG.C13.addEdge_against_time_refused
+#print axioms CG.C13.addEdge_against_time_refused'
+#print axioms CG.C13.addTimeEdge_against_time_refused
+#print axioms CG.C13.changeEdgeType_against_time_refused
+#print axioms CG.C13.changeEdgeType_reverse_key
+#print axioms CG.C13.replaceEdge_against_time_refused
+#print axioms CG.C13.replaceNode_against_time_refused
+#print axioms CG.C13.replaceNode_accepted
+#print axioms CG.C13.replaceNode_relag_against_time_refused
+#print axioms CG.replaceNodeBase_exact
